@@ -2,7 +2,7 @@
    Only statements here; proofs are in Proofs/Order.v.  [uc] = "C optimizations in use". *)
 From Coq Require Import List NArith Bool ZArith Sorting.Sorted Sorting.Permutation.
 Import ListNotations.
-From ZI Require Import Lib.Str Model.Order Proofs.Order Gen.Compare Proofs.OrderGen.
+From ZI Require Import Lib.Str Model.Order Proofs.Order Gen.Compare Proofs.OrderGen Gen.CompareC Proofs.OrderGenC.
 
 (* equal exactly when (__name__, __module__) are equal *)
 Theorem C12_eq_iff_key : forall uc a b, is_iface a -> is_iface b ->
@@ -117,6 +117,18 @@ Theorem C12_generated_methods_eq_model : forall o self other, okind_of self = KI
     end.
 Proof. exact gen_py_method_iface. Qed.
 Print Assumptions C12_generated_methods_eq_model.
+
+(* the C slot IB_richcompare as extracted from the C source on this run IS the model's c_richcompare
+   (identity and None short cuts, name decides unless equal, then module), for all operands *)
+Theorem C12_generated_c_richcompare_eq_model : forall o self other,
+  gen_c_richcompare o self other = c_richcompare o self other.
+Proof. exact gen_c_richcompare_eq_model. Qed.
+Print Assumptions C12_generated_c_richcompare_eq_model.
+
+Theorem C12_generated_c_method_table : forall o self other, okind_of self = KIface ->
+  method_table true o self other = gen_c_richcompare o self other.
+Proof. exact gen_c_method_table. Qed.
+Print Assumptions C12_generated_c_method_table.
 
 (* non-vacuity: concrete operands meeting the hypotheses, with non-trivial answers *)
 Example C12_witness :
